@@ -75,6 +75,7 @@ class Layout:
             if kind is True:
                 self.need_newline[j + 1] = True
         self.stmt_start = set(prog.stmts)
+        self.line_start = set(prog.stmts) | set(getattr(prog, 'closers', ()))
 
     def nl(self):
         return b'\r\n' if self.crlf else b'\n'
@@ -92,7 +93,7 @@ class Layout:
         want_nl = must_nl
         if not want_nl and can_nl and prev is not None and nxt is not None:
             if style == 'lines':
-                want_nl = g in self.stmt_start
+                want_nl = g in self.line_start
             elif style == 'normal':
                 want_nl = (g in self.stmt_start and rng.random() < 0.85) or rng.random() < 0.03
             elif style == 'wild':
